@@ -41,6 +41,7 @@ type caseCtx struct {
 	computes     [2]int
 	freeComputes [2]int32 // invocations of the caller's f while the goroutines run freely (after a divergence)
 	curKey       [maxThreads]int
+	vk           *vkind // how the model's value tokens are represented as Go values in this case
 	rets         [maxThreads][]obsv
 	gids         [maxThreads]int64
 }
@@ -51,7 +52,9 @@ var (
 	// deadlines
 	stepDeadline  = 12 * time.Second
 	probeDeadline = 3 * time.Millisecond
-	singleP       bool
+	// how long the leftover goroutines get to finish once one of them has panicked
+	postPanicDeadline = 2 * time.Second
+	singleP           bool
 )
 
 func curCtx() *caseCtx {
@@ -120,7 +123,7 @@ func (c *caseCtx) body(id int, lm lazyMap, ops []op) {
 		c.curKey[id] = int(o.K)
 		switch o.Kind {
 		case kLos:
-			k, v := int(o.K), int(o.V)
+			k, v := int(o.K), c.vk.enc(int(o.V))
 			r := lm.LoadOrStore(k, func() interface{} {
 				if atomic.LoadInt32(&c.pass) == 0 {
 					c.computes[k]++
@@ -130,16 +133,16 @@ func (c *caseCtx) body(id int, lm lazyMap, ops []op) {
 				}
 				return v
 			})
-			c.rets[id] = append(c.rets[id], classify(r))
+			c.rets[id] = append(c.rets[id], c.vk.dec(r))
 		case kLoad:
 			r, ok := lm.Load(int(o.K))
 			if !ok {
 				c.rets[id] = append(c.rets[id], obsv{oAbsent, 0})
 			} else {
-				c.rets[id] = append(c.rets[id], classify(r))
+				c.rets[id] = append(c.rets[id], c.vk.dec(r))
 			}
 		case kStore:
-			lm.Store(int(o.K), int(o.V))
+			lm.Store(int(o.K), c.vk.enc(int(o.V)))
 			c.rets[id] = append(c.rets[id], obsv{oUnit, 0})
 		}
 	}
@@ -211,11 +214,25 @@ const (
 	finished = 0
 )
 
+var opNames = []string{"LoadOrStore", "Load", "Store"}
+
+// the operation a goroutine was executing (its i-th), with the Go value it carries
+func panicOp(prog program, id, i int, vk *vkind) string {
+	if id < 0 || id >= len(prog) || i >= len(prog[id]) {
+		return "no operation"
+	}
+	o := prog[id][i]
+	if o.Kind == kLoad {
+		return fmt.Sprintf("Load(%d)", o.K)
+	}
+	return fmt.Sprintf("%s(%d, %s)", opNames[o.Kind], o.K, describe(vk.enc(int(o.V)), int(o.V)))
+}
+
 // runCase forces sched on a fresh map of module m.  probe >= 0: after the schedule, release goroutine probe (parked
 // before a Wait whose Done has not run) and require that it does NOT come back.
-func runCase(m *module, prog program, sched []int, probe int) *outcome {
+func runCase(m *module, prog program, sched []int, probe int, vk *vkind) *outcome {
 	n := len(prog)
-	c := &caseCtx{n: n, rel: make([]chan struct{}, n), rep: make(chan rpt, 4*maxThreads+4)}
+	c := &caseCtx{n: n, vk: vk, rel: make([]chan struct{}, n), rep: make(chan rpt, 4*maxThreads+4)}
 	for i := range c.rel {
 		c.rel[i] = make(chan struct{}, 1)
 	}
@@ -237,6 +254,16 @@ func runCase(m *module, prog program, sched []int, probe int) *outcome {
 	var knownComputes [2]int
 
 	fail := func(sig, what string) { out.fails = append(out.fails, failure{sig, what}) }
+	// a panic that escaped a map operation: the goroutine is gone (recovered in body); the signature names the operation
+	// it was in and the value kind.  Only called after the goroutine reported, so its rets are stable.
+	panicSig := func(id int) string {
+		opn := "none"
+		if i := len(c.rets[id]); i < len(prog[id]) {
+			opn = opNames[prog[id][i].Kind]
+		}
+		return "panic:" + opn + ":" + vk.name
+	}
+	panicked := false
 	// release goroutine t and wait for it; false: stop forcing
 	release := func(t int, where string) bool {
 		c.current = t
@@ -248,8 +275,9 @@ func runCase(m *module, prog program, sched []int, probe int) *outcome {
 			return false
 		}
 		if r.isPan {
-			fail("panic", fmt.Sprintf("goroutine %d panicked after being released %s: %s", r.id, where, r.pan))
+			fail(panicSig(r.id), fmt.Sprintf("goroutine %d panicked in %s after being released %s: %s", r.id, panicOp(prog, r.id, len(c.rets[r.id]), vk), where, r.pan))
 			parked[r.id] = finished
+			panicked = true
 			out.diverged = true
 			return false
 		}
@@ -336,6 +364,9 @@ func runCase(m *module, prog program, sched []int, probe int) *outcome {
 			out.finished = false
 		}
 	}
+	if panicked {
+		out.finished = false // a goroutine that died in a panic did not run all its operations
+	}
 	clean := len(out.fails) == 0
 	if out.abandoned {
 		atomic.StoreInt32(&leaky, 1)
@@ -370,7 +401,7 @@ func runCase(m *module, prog program, sched []int, probe int) *outcome {
 	atomic.StoreInt32(&c.pass, 1)
 	if out.finished {
 		// quiescent: the controller itself loads both keys (hooks are pass-through); guarded, a broken map may block
-		if f, what, sig := finalLoads(lm); sig != "" {
+		if f, what, sig := finalLoads(lm, vk); sig != "" {
 			fail(sig, what)
 		} else {
 			out.final = f
@@ -386,18 +417,25 @@ func runCase(m *module, prog program, sched []int, probe int) *outcome {
 				}
 			}
 		}
-		t := time.NewTimer(stepDeadline)
+		// after a panic the goroutines that wait for the dead goroutine's placeholder can never return: do not spend the
+		// whole step deadline on them (the run is a failing input already; the extra report is named accordingly)
+		dl, blockedSig := stepDeadline, "blocked"
+		if panicked && dl > postPanicDeadline {
+			dl, blockedSig = postPanicDeadline, "blocked-after-panic"
+		}
+		t := time.NewTimer(dl)
 		for left > 0 {
 			select {
 			case r := <-c.rep:
 				if r.isPan {
-					fail("panic", fmt.Sprintf("goroutine %d panicked while draining: %s", r.id, r.pan))
+					fail(panicSig(r.id), fmt.Sprintf("goroutine %d panicked in %s while running freely after the forced prefix: %s", r.id, panicOp(prog, r.id, len(c.rets[r.id]), vk), r.pan))
+					panicked = true
 					left--
 				} else if r.fin {
 					left--
 				}
 			case <-t.C:
-				fail("blocked", fmt.Sprintf("%d goroutines did not finish when left to run freely after the forced prefix", left))
+				fail(blockedSig, fmt.Sprintf("%d goroutines did not finish within %v when left to run freely after the forced prefix", left, dl))
 				out.abandoned = true
 				atomic.StoreInt32(&leaky, 1)
 				left = 0
@@ -413,7 +451,7 @@ func runCase(m *module, prog program, sched []int, probe int) *outcome {
 			for k := 0; k < 2; k++ {
 				dr.computes[k] = c.computes[k] + int(atomic.LoadInt32(&c.freeComputes[k]))
 			}
-			if f, _, sig := finalLoads(lm); sig == "" {
+			if f, _, sig := finalLoads(lm, vk); sig == "" {
 				dr.final = f
 				out.dr = dr
 			}
@@ -444,11 +482,13 @@ func runCase(m *module, prog program, sched []int, probe int) *outcome {
 }
 
 // finalLoads: Load(0), Load(1) on a quiescent map, guarded by the step deadline.  sig != "": it panicked / blocked.
-func finalLoads(lm lazyMap) (f []obsv, what, sig string) {
+func finalLoads(lm lazyMap, vk *vkind) (f []obsv, what, sig string) {
 	ch := make(chan []obsv, 1)
+	pan := ""
 	go func() {
 		defer func() {
 			if r := recover(); r != nil {
+				pan = fmt.Sprint(r)
 				ch <- nil
 			}
 		}()
@@ -457,7 +497,7 @@ func finalLoads(lm lazyMap) (f []obsv, what, sig string) {
 			if v, ok := lm.Load(k); !ok {
 				f = append(f, obsv{oAbsent, 0})
 			} else {
-				f = append(f, classify(v))
+				f = append(f, vk.dec(v))
 			}
 		}
 		ch <- f
@@ -467,7 +507,7 @@ func finalLoads(lm lazyMap) (f []obsv, what, sig string) {
 	select {
 	case f := <-ch:
 		if f == nil {
-			return nil, "Load on the quiescent map panicked", "panic"
+			return nil, "Load on the quiescent map panicked: " + pan, "panic:Load:" + vk.name
 		}
 		return f, "", ""
 	case <-t.C:
